@@ -354,6 +354,38 @@ def check(run, model, tier):
                                         'marker): when it is written during a step - in an entry, exit or init action, or from another thread - the trace record of that step names this '
                                         'tuple\'s signal instead of the signal that caused the transition, or the hook flag of the step is taken from it' % f_.qualname), node=c_, obligation=True)
         run.floor('writers of rtc.tuples', n_w, 4)
+    # ---- the offer writer itself: the tuple spy_on records for an offer of a user signal must be read by the hook scan as "a hook answered" exactly when the handler
+    # returned HANDLED (UNHANDLED, SUPER and TRAN leave the event to an enclosing state or start a transition: marking them hides the record of that transition).
+    # Decided by evaluating the spy wrapper (props/c19.wrapper_cases) and handing the tuples it wrote to the package's own scan helper.
+    run.rule('TUPLES.offer-flag', 'the tuple spy_on writes for an offer is classified as a hook by the trace scan iff the handler returned HANDLED (wrapper and scan evaluated)')
+    if len(scan) == 1:
+        from props.c19 import wrapper_cases, INNER_NAMES
+        so_ = model.func('hsm.spy_on')
+        inner_so = cg.factories.get(so_)
+        bad, n_c = None, 0
+        try:
+            k_, _ar = hook_flag_index(scan[0])
+            if k_ is not None and inner_so is not None:
+                for st_name, sname, _log, tuples, _calls, _got, _h in wrapper_cases(model, so_, inner_so):
+                    if sname in INNER_NAMES:
+                        continue
+                    for t_ in tuples:
+                        if not hasattr(t_, 'datetime'):
+                            t_.datetime = 1
+                    res = scan_call(scan[0], tuples)
+                    hooked = res[k_] if isinstance(res, tuple) else res
+                    n_c += 1
+                    if bool(hooked) != (st_name == 'HANDLED') and bad is None:
+                        bad = (st_name, hooked, [sorted((a, v) for a, v in vars(t_).items() if a in ('hook', 'internal', 'recall')) for t_ in tuples])
+        except AnalysisError as ex:
+            run.note('TUPLES.offer-flag: the spy wrapper or the scan helper is outside the evaluator\'s fragment (%s); the flag of the offer tuple is not decided' % ex)
+            n_c = 0
+        if n_c:
+            run.inst('TUPLES.offer-flag', inner_so, 'offer tuple read as a hook iff HANDLED, on %d handler answers' % n_c, bad is None,
+                     '' if bad is None else ('for a handler answering %s to a user signal spy_on writes the tuple(s) %s, which the trace scan reads as hooked=%s: %s' % (
+                         bad[0], bad[2], bad[1],
+                         'an inner state declining the event (guard, super) marks the step as handled internally, so the transition an enclosing state then takes gets no trace record'
+                         if bad[1] else 'an internally handled event is no longer marked, so it gets a trace record although no transition occurred')), obligation=True)
     # ---- outcome visibility: dispatch
     hep = model.cls('HsmEventProcessor')
     disp = hep.methods.get('dispatch')
